@@ -46,6 +46,12 @@ CursorCounterexamples.vos CursorCounterexamples.vok CursorCounterexamples.requir
 CursorProofs.vo CursorProofs.glob CursorProofs.v.beautified CursorProofs.required_vo: CursorProofs.v CInt.vo CIntFacts.vo Bytes.vo BytesFacts.vo Msg.vo Layout.vo Wire.vo MsgSpec.vo MsgProofs.vo Cursor.vo CursorSpec.vo
 CursorProofs.vio: CursorProofs.v CInt.vio CIntFacts.vio Bytes.vio BytesFacts.vio Msg.vio Layout.vio Wire.vio MsgSpec.vio MsgProofs.vio Cursor.vio CursorSpec.vio
 CursorProofs.vos CursorProofs.vok CursorProofs.required_vos: CursorProofs.v CInt.vos CIntFacts.vos Bytes.vos BytesFacts.vos Msg.vos Layout.vos Wire.vos MsgSpec.vos MsgProofs.vos Cursor.vos CursorSpec.vos
+CursorScript.vo CursorScript.glob CursorScript.v.beautified CursorScript.required_vo: CursorScript.v CInt.vo Bytes.vo Msg.vo Layout.vo Cursor.vo CursorSpec.vo
+CursorScript.vio: CursorScript.v CInt.vio Bytes.vio Msg.vio Layout.vio Cursor.vio CursorSpec.vio
+CursorScript.vos CursorScript.vok CursorScript.required_vos: CursorScript.v CInt.vos Bytes.vos Msg.vos Layout.vos Cursor.vos CursorSpec.vos
+CursorScriptProofs.vo CursorScriptProofs.glob CursorScriptProofs.v.beautified CursorScriptProofs.required_vo: CursorScriptProofs.v CInt.vo CIntFacts.vo Bytes.vo BytesFacts.vo Msg.vo Layout.vo Wire.vo MsgSpec.vo MsgProofs.vo Cursor.vo CursorSpec.vo CursorProofs.vo CursorScript.vo
+CursorScriptProofs.vio: CursorScriptProofs.v CInt.vio CIntFacts.vio Bytes.vio BytesFacts.vio Msg.vio Layout.vio Wire.vio MsgSpec.vio MsgProofs.vio Cursor.vio CursorSpec.vio CursorProofs.vio CursorScript.vio
+CursorScriptProofs.vos CursorScriptProofs.vok CursorScriptProofs.required_vos: CursorScriptProofs.v CInt.vos CIntFacts.vos Bytes.vos BytesFacts.vos Msg.vos Layout.vos Wire.vos MsgSpec.vos MsgProofs.vos Cursor.vos CursorSpec.vos CursorProofs.vos CursorScript.vos
 CursorSpec.vo CursorSpec.glob CursorSpec.v.beautified CursorSpec.required_vo: CursorSpec.v CInt.vo Bytes.vo Msg.vo Layout.vo Wire.vo MsgSpec.vo Cursor.vo
 CursorSpec.vio: CursorSpec.v CInt.vio Bytes.vio Msg.vio Layout.vio Wire.vio MsgSpec.vio Cursor.vio
 CursorSpec.vos CursorSpec.vok CursorSpec.required_vos: CursorSpec.v CInt.vos Bytes.vos Msg.vos Layout.vos Wire.vos MsgSpec.vos Cursor.vos
@@ -67,9 +73,9 @@ EnumVisit.vos EnumVisit.vok EnumVisit.required_vos: EnumVisit.v
 ExtrStrings.vo ExtrStrings.glob ExtrStrings.v.beautified ExtrStrings.required_vo: ExtrStrings.v 
 ExtrStrings.vio: ExtrStrings.v 
 ExtrStrings.vos ExtrStrings.vok ExtrStrings.required_vos: ExtrStrings.v 
-Extract.vo Extract.glob Extract.v.beautified Extract.required_vo: Extract.v CInt.vo Constness.vo GroupIter.vo Dyn.vo StaticArray.vo Bitset.vo Fp.vo Optional.vo OptLit.vo Bytes.vo Msg.vo Layout.vo Wire.vo Cursor.vo CursorStop.vo Compile.vo CursorSpec.vo Checked.vo IoModel.vo EnumVisit.vo Rules.vo Validate.vo Pipeline.vo ExtrStrings.vo Literals.vo Names.vo Traits.vo
-Extract.vio: Extract.v CInt.vio Constness.vio GroupIter.vio Dyn.vio StaticArray.vio Bitset.vio Fp.vio Optional.vio OptLit.vio Bytes.vio Msg.vio Layout.vio Wire.vio Cursor.vio CursorStop.vio Compile.vio CursorSpec.vio Checked.vio IoModel.vio EnumVisit.vio Rules.vio Validate.vio Pipeline.vio ExtrStrings.vio Literals.vio Names.vio Traits.vio
-Extract.vos Extract.vok Extract.required_vos: Extract.v CInt.vos Constness.vos GroupIter.vos Dyn.vos StaticArray.vos Bitset.vos Fp.vos Optional.vos OptLit.vos Bytes.vos Msg.vos Layout.vos Wire.vos Cursor.vos CursorStop.vos Compile.vos CursorSpec.vos Checked.vos IoModel.vos EnumVisit.vos Rules.vos Validate.vos Pipeline.vos ExtrStrings.vos Literals.vos Names.vos Traits.vos
+Extract.vo Extract.glob Extract.v.beautified Extract.required_vo: Extract.v CInt.vo Constness.vo GroupIter.vo Dyn.vo StaticArray.vo Bitset.vo Fp.vo Optional.vo OptLit.vo Bytes.vo Msg.vo Layout.vo Wire.vo Cursor.vo CursorStop.vo CursorScript.vo Compile.vo CursorSpec.vo Checked.vo IoModel.vo EnumVisit.vo Rules.vo Validate.vo Pipeline.vo ExtrStrings.vo Literals.vo Names.vo Traits.vo
+Extract.vio: Extract.v CInt.vio Constness.vio GroupIter.vio Dyn.vio StaticArray.vio Bitset.vio Fp.vio Optional.vio OptLit.vio Bytes.vio Msg.vio Layout.vio Wire.vio Cursor.vio CursorStop.vio CursorScript.vio Compile.vio CursorSpec.vio Checked.vio IoModel.vio EnumVisit.vio Rules.vio Validate.vio Pipeline.vio ExtrStrings.vio Literals.vio Names.vio Traits.vio
+Extract.vos Extract.vok Extract.required_vos: Extract.v CInt.vos Constness.vos GroupIter.vos Dyn.vos StaticArray.vos Bitset.vos Fp.vos Optional.vos OptLit.vos Bytes.vos Msg.vos Layout.vos Wire.vos Cursor.vos CursorStop.vos CursorScript.vos Compile.vos CursorSpec.vos Checked.vos IoModel.vos EnumVisit.vos Rules.vos Validate.vos Pipeline.vos ExtrStrings.vos Literals.vos Names.vos Traits.vos
 FillProofs.vo FillProofs.glob FillProofs.v.beautified FillProofs.required_vo: FillProofs.v CInt.vo CIntFacts.vo Bytes.vo BytesFacts.vo Msg.vo Layout.vo Wire.vo MsgSpec.vo LayoutProofs.vo MsgProofs.vo Cursor.vo CursorSpec.vo Checked.vo ScriptSpec.vo
 FillProofs.vio: FillProofs.v CInt.vio CIntFacts.vio Bytes.vio BytesFacts.vio Msg.vio Layout.vio Wire.vio MsgSpec.vio LayoutProofs.vio MsgProofs.vio Cursor.vio CursorSpec.vio Checked.vio ScriptSpec.vio
 FillProofs.vos FillProofs.vok FillProofs.required_vos: FillProofs.v CInt.vos CIntFacts.vos Bytes.vos BytesFacts.vos Msg.vos Layout.vos Wire.vos MsgSpec.vos LayoutProofs.vos MsgProofs.vos Cursor.vos CursorSpec.vos Checked.vos ScriptSpec.vos
